@@ -270,11 +270,16 @@ def main(tier, seed):
                 db.insert(M.real_point(tf, p), compact_key_prefixes=rng.random() < 0.5)
             live = [M.canon_point(q) for q in db.all(sorted=False)]
             db.close()
-            db2 = tf.TinyFlux(path)
-            got = [M.canon_point(q) for q in db2.all(sorted=False)]
-            db2.close()
+            try:
+                db2 = tf.TinyFlux(path)
+                try:
+                    got = [M.canon_point(q) for q in db2.all(sorted=False)]
+                finally:
+                    db2.close()
+            except Exception as e:  # noqa  reading back what was just written must not fail
+                got = ("raise", type(e).__name__)
             file_runs += 1
-            same = lambda g: len(g) == len(pts) and all(py_equal(a, x) for a, x in zip(pts, g))
+            same = lambda g: not isinstance(g, tuple) and len(g) == len(pts) and all(py_equal(a, x) for a, x in zip(pts, g))
             if not (same(got) and same(live)) and len(direct_bad) < 4:
                 direct_bad.append({"kind": "failing-input", "why": f"with the process in time zone {tzname}, points written to a CSV database and read back differ",
                                    "TZ": tzname, "points": pts, "read_back": got, "read_on_the_live_object": live})
